@@ -35,6 +35,12 @@ pub enum Op {
     /// a run in which the k-th mutating file-system call fails with EIO (a survivable I/O fault; shim VPSCHED_FAIL_AT).
     /// Histories containing it are checked by the oracles only (the model has no I/O faults).
     RunFault(u32),
+    /// `bisync B A`: the same two directories named in the other order. The tool keeps a separate record per ORDER, so a
+    /// history that uses both orders is outside the quantifier of C02 / C06 (their histories have one order); it is run for
+    /// the C07 clauses only - whatever else lies under $HOME, a run whose own record is damaged deletes nothing
+    RunSwapped,
+    /// an archive fault on the record of the swapped order
+    FaultSwapped(u8),
 }
 
 pub struct Env {
@@ -70,6 +76,16 @@ impl Env {
         let mut v: Vec<String> = std::fs::read_dir(&d).map(|rd| rd.flatten().map(|e| e.path().to_string_lossy().into_owned()).collect()).unwrap_or_default();
         v.sort();
         v
+    }
+    /// the archive file of the pair named in the OTHER order
+    pub fn archive_swapped(&self) -> Option<String> {
+        let canon = |p: &str| std::fs::canonicalize(p).map(|x| x.to_string_lossy().into_owned()).unwrap_or_else(|_| p.to_string());
+        let mut h = blake3::Hasher::new();
+        h.update(canon(&self.b).as_bytes());
+        h.update(b"\0");
+        h.update(canon(&self.a).as_bytes());
+        let want = format!("{}.json", h.finalize().to_hex());
+        self.archive_files().into_iter().find(|f| f.ends_with(&want))
     }
     /// the archive file of THIS pair: `<BLAKE3(canonical A, NUL, canonical B)>.json` (the naming rule of archive.rs)
     pub fn archive_main(&self) -> Option<String> {
@@ -229,6 +245,7 @@ pub fn run_history(id: usize, env: &Env, init_a: &Tree, init_b: &Tree, ops: &[Op
     let mut nconf = 0;
     let mut fault_pending = false;
     let mut c06_off = false;
+    let mut mixed = false;
     let mut oracle_only = false;
     // what both sides held at the end of the previous COMPLETED run (ground truth, independent of the archive file)
     let mut prev_end: Option<(Tree, Tree)> = None;
@@ -246,10 +263,26 @@ pub fn run_history(id: usize, env: &Env, init_a: &Tree, init_b: &Tree, ops: &[Op
                 let _ = std::fs::remove_file(format!("{}/{}", if *side { &env.a } else { &env.b }, p));
                 op_strs.push(format!("D{}:{}", if *side { "A" } else { "B" }, hex(p.as_bytes())));
             }
-            Op::Fault(kind) => {
-                op_strs.push(format!("F{}", kind % 9));
+            Op::Fault(kind) | Op::FaultSwapped(kind) => {
+                let sw = matches!(op, Op::FaultSwapped(_));
+                let kind = &(if sw { kind % 8 } else { *kind });
+                op_strs.push(format!("{}{}", if sw { "G" } else { "F" }, kind % 9));
                 fault_pending = true;
-                if kind % 9 == 8 {
+                if sw {
+                    if let Some(f) = env.archive_swapped() {
+                        let bytes = std::fs::read(&f).unwrap_or_default();
+                        match kind % 8 {
+                            0 => { let _ = std::fs::remove_file(&f); }
+                            1 => { std::fs::write(&f, b"").unwrap(); }
+                            2 => { let n = r.below(bytes.len() as u64) as usize; std::fs::write(&f, &bytes[..n]).unwrap(); }
+                            3 => { std::fs::write(&f, r.bytes(64)).unwrap(); }
+                            4 => { std::fs::write(&f, b"[1,2,3]").unwrap(); }
+                            5 => { let s = String::from_utf8_lossy(&bytes).replace("\"format_version\": 1", "\"format_version\": 2"); std::fs::write(&f, s).unwrap(); }
+                            6 => { let s = String::from_utf8_lossy(&bytes).replacen("\"root_pair_hash\": \"", "\"root_pair_hash\": \"00", 1); std::fs::write(&f, s).unwrap(); }
+                            _ => { let _ = std::fs::rename(&f, format!("{}.bak", f)); }
+                        }
+                    }
+                } else if kind % 9 == 8 {
                     // foreign pair: the name of one root now denotes another directory (same files)
                     generation += 1;
                     env.repoint(r.chance(1, 2), generation);
@@ -267,13 +300,16 @@ pub fn run_history(id: usize, env: &Env, init_a: &Tree, init_b: &Tree, ops: &[Op
                     }
                 }
             }
-            Op::Run | Op::RunFault(_) => {
+            Op::Run | Op::RunFault(_) | Op::RunSwapped => {
                 runs += 1;
                 let faultk = if let Op::RunFault(k) = op { Some(*k) } else { None };
+                let swapped = matches!(op, Op::RunSwapped);
                 match faultk {
                     Some(k) => { op_strs.push(format!("X{}", k)); oracle_only = true; }
+                    None if swapped => { op_strs.push("S".into()); oracle_only = true; c06_off = true; mixed = true; }
                     None => op_strs.push("R".into()),
                 }
+                let (ra, rb) = if swapped { (env.b.clone(), env.a.clone()) } else { (env.a.clone(), env.b.clone()) };
                 let before_a = read_tree(&env.a);
                 let before_b = read_tree(&env.b);
                 let _before_z = env.archive_entries();
@@ -281,7 +317,7 @@ pub fn run_history(id: usize, env: &Env, init_a: &Tree, init_b: &Tree, ops: &[Op
                 // siblings, other pairs' files), byte for byte, names included
                 let before_home = snapshot(&env.home);
                 // dry run first: prints the plan, must touch nothing (C15 clause, checked here as a sanity oracle)
-                let (_, dry_out, dry_err) = env.bisync(&["--dry-run"], &env.a, &env.b, &[]);
+                let (_, dry_out, dry_err) = env.bisync(&["--dry-run"], &ra, &rb, &[]);
                 plan = parse_plan(&dry_out);
                 if read_tree(&env.a) != before_a || read_tree(&env.b) != before_b {
                     fails.push(format!("{} C15 bisync --dry-run modified a tree", id));
@@ -303,8 +339,9 @@ pub fn run_history(id: usize, env: &Env, init_a: &Tree, init_b: &Tree, ops: &[Op
                     (Some(_), Some(sh)) => vec![("LD_PRELOAD", sh), ("VPSCHED_ONLY", "copia"), ("VPSCHED_WATCH", env.dir.as_str()), ("VPSCHED_FAIL_AT", ks.as_str())],
                     _ => vec![],
                 };
-                let (code, out, _err) = env.bisync(&[], &env.a, &env.b, &fenv);
-                let complete = out.contains("Bidirectional sync complete");
+                let (code, out, err_) = env.bisync(&[], &ra, &rb, &fenv);
+                // completed = the summary line, or the non-zero exit that reports preserved conflicts and nothing else
+                let complete = out.contains("Bidirectional sync complete") || err_.contains("had conflicts (both versions preserved)");
                 exit = match (code, complete) {
                     (Some(0), _) => "OK".into(),
                     (Some(_), true) => "CONFLICTS".into(),
@@ -345,7 +382,8 @@ pub fn run_history(id: usize, env: &Env, init_a: &Tree, init_b: &Tree, ops: &[Op
                             let kept = conts_a.contains(c) && conts_b.contains(c);
                             let base_version = prev_end.as_ref().map(|(ea, eb)| ea.get(p) == Some(c) && eb.get(p) == Some(c)).unwrap_or(false);
                             let superseded = !nobase && base_version && other.get(p) != Some(c);
-                            if !kept && !superseded {
+                            // (a history that has used both orders: only the clauses of C07 are checked - see Op::RunSwapped)
+                            if !kept && !superseded && (nobase || !mixed) {
                                 let tag = if nobase { "C07" } else { "C02" };
                                 fails.push(format!("{} {} version lost: side {} path {:?} content {} is not on both sides after the run and was not the recorded base version superseded by the other side", id, tag, if side_a { "A" } else { "B" }, p, hex(c)));
                             }
@@ -404,7 +442,8 @@ pub fn run_history(id: usize, env: &Env, init_a: &Tree, init_b: &Tree, ops: &[Op
             match op {
                 Op::Write(side, p, c, pm) => write_file2(if *side { &env2.b } else { &env2.a }, Some(if *side { &env2.a } else { &env2.b }), p, c, r, *pm),
                 Op::Delete(side, p) => { let _ = std::fs::remove_file(format!("{}/{}", if *side { &env2.b } else { &env2.a }, p)); }
-                Op::Run | Op::RunFault(_) => { let _ = env2.bisync(&[], &env2.a, &env2.b, &[]); }
+                Op::Run | Op::RunFault(_) | Op::RunSwapped => { let _ = env2.bisync(&[], &env2.a, &env2.b, &[]); }
+                Op::FaultSwapped(_) => {}
                 Op::Fault(_) => { if let Some(f) = env2.archive_main() { let _ = std::fs::remove_file(f); } }
             }
         }
@@ -536,6 +575,8 @@ pub fn parse_case(line: &str) -> (Tree, Tree, Vec<Op>) {
                         "DA" => ops.push(Op::Delete(true, s(f[1]))),
                         "DB" => ops.push(Op::Delete(false, s(f[1]))),
                         "R" => ops.push(Op::Run),
+                        "S" => ops.push(Op::RunSwapped),
+                        x if x.starts_with('G') => ops.push(Op::FaultSwapped(x[1..].parse().unwrap_or(0))),
                         x if x.starts_with('X') && x[1..].parse::<u32>().is_ok() => ops.push(Op::RunFault(x[1..].parse().unwrap())),
                         x if x.starts_with('F') => ops.push(Op::Fault(x[1..].parse().unwrap_or(0))),
                         _ => ops.push(Op::Fault(0)),
@@ -602,7 +643,34 @@ fn gen_history(r: &mut Rng, pool: &[Vec<u8>], paths: &[&str]) -> (Tree, Tree, Ve
     }
     let class: &'static str;
     let mut ops = vec![];
-    match r.below(9) {
+    match r.below(11) {
+        9 => {
+            // both orders in use, the record of one order goes stale, then the record of the order in use is damaged: the
+            // run must fall back to no-base mode (no delete, nothing lost), whatever the other order's record says
+            class = "directed:both-orders-then-fault";
+            let p = paths[0].to_string();
+            let c = r.pick(pool).clone();
+            a.clear();
+            b.clear();
+            let (o1, o2) = if r.chance(1, 2) { (Op::Run, Op::RunSwapped) } else { (Op::RunSwapped, Op::Run) };
+            let sw2 = matches!(o2, Op::RunSwapped);
+            let k = r.below(8) as u8;
+            ops = vec![Op::Write(true, p.clone(), c.clone(), false), Op::Write(true, paths[1].to_string(), pool[2].clone(), false), o1.clone(), o2.clone(),
+                       Op::Delete(r.chance(1, 2), p.clone()), o2.clone(), Op::Write(r.chance(1, 2), p.clone(), c, false),
+                       if sw2 { Op::FaultSwapped(k) } else { Op::Fault(k) }, o2.clone(), o2];
+        }
+        10 => {
+            // a conflicted run, then one side goes BACK to the bytes the path had before the conflict (and a file whose delete
+            // that run mirrored is re-created with its old bytes): the restored versions are new edits, not the old base
+            class = "directed:restore-after-conflict";
+            let (p, g) = (paths[0].to_string(), paths[2].to_string());
+            let (v1, w1) = (pool[1].clone(), pool[2].clone());
+            a.clear();
+            b.clear();
+            ops = vec![Op::Write(true, p.clone(), v1.clone(), false), Op::Write(true, g.clone(), w1.clone(), false), Op::Run,
+                       Op::Write(true, p.clone(), pool[3].clone(), false), Op::Write(false, p.clone(), pool[2].clone(), false), Op::Delete(r.chance(1, 2), g.clone()), Op::Run,
+                       Op::Write(r.chance(1, 2), p.clone(), v1, false), Op::Write(r.chance(1, 2), g, w1, false), Op::Run, Op::Run];
+        }
         0 => {
             class = "directed:delete-both-recreate";
             let p = paths[0].to_string();
